@@ -401,6 +401,61 @@ func c12FastAfterUse(first, second int, sp *GenomeSpec, input []float64, depth i
 	return solver.ReadOutputs(), nil
 }
 
+// c12TwoHandles: TWO solvers obtained from ONE network are used interleaved on different input vectors -
+// the first is loaded with `input`, then a second fast solver is derived from the same network, loaded with
+// another vector and run, and only then the first is run. first == 0: the first handle is the network itself
+// (standard solver); otherwise a derived fast solver run through entry point `first`.
+func c12TwoHandles(first int, sp *GenomeSpec, input []float64, depth int) (outs []float64, err error) {
+	defer func() {
+		if r := recover(); r != nil {
+			err = fmt.Errorf("panic: %v", r)
+		}
+	}()
+	net, err := sp.Build().Genesis(1)
+	if err != nil {
+		return nil, err
+	}
+	var a network.Solver = net
+	if first != 0 {
+		if a, err = net.FastNetworkSolver(); err != nil {
+			return nil, err
+		}
+	}
+	if err = a.LoadSensors(input); err != nil {
+		return nil, err
+	}
+	b, err := net.FastNetworkSolver()
+	if err != nil {
+		return nil, err
+	}
+	other := make([]float64, len(input))
+	for i := range other {
+		other[i] = 1.5 - float64(i)
+	}
+	if err = b.LoadSensors(other); err != nil {
+		return nil, err
+	}
+	if _, err = b.ForwardSteps(depth); err != nil {
+		return nil, err
+	}
+	res := true
+	switch first {
+	case 0, 3:
+		res, err = a.ForwardSteps(depth)
+	case 5:
+		res, err = a.RecursiveSteps()
+	case 6:
+		_, err = a.Relax(depth+3, 5e-324)
+	}
+	if err != nil {
+		return nil, err
+	}
+	if !res {
+		return nil, fmt.Errorf("solver reported failure")
+	}
+	return a.ReadOutputs(), nil
+}
+
 var c12HowNames = []string{"", " [restored from its written model, flushed before use]", " [constructed directly, bias links as connections, flushed before use]"}
 
 func c12Eval(cs c12Case) (fails [][2]string, excluded, skipped bool, depth int) {
@@ -454,6 +509,20 @@ func c12Eval(cs c12Case) (fails [][2]string, excluded, skipped bool, depth int) 
 	for _, pr := range [][2]int{{5, 3}, {3, 5}, {6, 3}, {5, 6}} {
 		name := c12Solvers[pr[1]] + " [same solver used through " + c12Solvers[pr[0]] + " on another input and flushed before]"
 		got, err := c12FastAfterUse(pr[0], pr[1], g, cs.Input, depth)
+		if err != nil {
+			fails = append(fails, [2]string{name + "/error", fmt.Sprintf("%s failed: %v", name, err)})
+			continue
+		}
+		for i := range want {
+			if i >= len(got) || (!relClose(got[i], want[i], 1e-11) && math.Abs(got[i]-want[i]) > 1e-13) {
+				fails = append(fails, [2]string{name + "/value", fmt.Sprintf("%s output %d = %v, topological evaluation gives %.17g", name, i, got, want[i])})
+				break
+			}
+		}
+	}
+	for _, first := range []int{0, 3, 5, 6} {
+		name := c12Solvers[first] + " [a second fast solver derived from the same network was loaded with another vector and run in between]"
+		got, err := c12TwoHandles(first, g, cs.Input, depth)
 		if err != nil {
 			fails = append(fails, [2]string{name + "/error", fmt.Sprintf("%s failed: %v", name, err)})
 			continue
